@@ -30,6 +30,10 @@ RULE = ("(i) molecules as for C05 (FG-rich fragments, 1-14 heavy atoms, all id s
         "B,A,B, every time on a fresh FGQuery built through a random public construction path (FGQuery(config=list), FGQuery(mapper=..., config=list), "
         "FGQuery(config=FGConfigProvider(list)) with and without an explicit mapper): every answer must equal the model's answer for that "
         "(configuration, molecule) alone; the same sequences are repeated in fresh interpreters under the other hash seeds. "
+        "(iii) colliding symbols: pairs of molecules built directly whose neighbour lists around a hetero "
+        "centre differ (a two-letter element such as Sn, Si, Co, Cs, No, Os, Sc, Hf, In, Cn, Nb, Pb vs the two one-letter atoms) but read the same when "
+        "concatenated, asked one after the other (both orders, and m1,m2,m1) on ONE FGQuery object: the last answer must equal the model's answer for that "
+        "molecule alone and the answers of fresh objects in fresh interpreters. "
         "non-trivial = at least one group reported; distinct = distinct (history / step sequence, molecule, configuration, flag, construction path)")
 TRUSTED = c05.TRUSTED + [
     "hash-seed independence and non-mutation of the argument are runtime facts of CPython objects (a pure Gallina model has "
@@ -50,6 +54,10 @@ def generate(seed, tier, ncases=None):
         cases.append(c)
     for i in range(n_steps):
         cases.append(gen_steps_case(lib.rng_for(seed, ID, 500000 + i)))
+    # sequences of get() calls on ONE FGQuery over molecules whose neighbour symbol lists differ but read the same when
+    # concatenated (['Sn', ...] vs ['S', 'N', ...]): any per-object memo keyed by joined symbols would answer from a stale entry
+    for i in range(max(2, n // 6)):
+        cases.extend(gen_collision_cases(lib.rng_for(seed, ID, 650000 + i)))
     # small hetero rings in several writings with chain-pattern configurations (see c05.gen_ring_cases): the answer must
     # not depend on the writing-induced adjacency order beyond what the model says
     for i in range(max(2, n // 9)):
@@ -59,6 +67,31 @@ def generate(seed, tier, ncases=None):
     attach_seed_answers(cases, fc.SEEDS if tier == "quick" else fc.SEEDS + ["11", "12345", "random"])
     for c in cases:
         yield c
+
+
+COLLISION_CONFIGS = [None, None,
+                     [{"name": "ether", "pattern": "ROR", "group_atoms": [1]}, {"name": "amine", "pattern": "RN(R)R", "group_atoms": [1]},
+                      {"name": "sulfide", "pattern": "RSR", "group_atoms": [1]}, {"name": "oxy", "pattern": "RO"}, {"name": "aza", "pattern": "RN"}],
+                     [{"name": "X2", "pattern": "RPR"}, {"name": "B2", "pattern": "RBR"}, {"name": "SN", "pattern": "SN"},
+                      {"name": "any2", "pattern": "RO"}, {"name": "SO", "pattern": "SO"}, {"name": "NO", "pattern": "NO"}],
+                     [{"name": "tin", "pattern": "SnO"}, {"name": "sil", "pattern": "SiO"}, {"name": "SOR", "pattern": "SOR"},
+                      {"name": "NOR", "pattern": "NOR"}, {"name": "ROR", "pattern": "ROR"}]]
+
+
+def gen_collision_cases(rng):
+    """m1 contains a two-letter element next to a hetero centre, m2 the two one-letter atoms instead (fc.colliding_pair):
+    both orders as history / final molecule on the same FGQuery object, and m1, m2, m1"""
+    m1, m2, (xy, x, y, z) = fc.colliding_pair(rng)
+    # ids may move, but the adjacency ORDER around the centre is what makes the concatenations coincide: keep it
+    k1, k2 = rng.choice([0, 0, 3, 11]), rng.choice([0, 0, 5, 20])
+    m1, m2 = fc.shift_ids(m1, lambda n: n + k1), fc.shift_ids(m2, lambda n: n + k2)
+    specs = fc.colliding_config(rng, xy, x, y, z) if rng.random() < 0.75 else rng.choice(COLLISION_CONFIGS)
+    req_h = rng.random() < 0.4
+    out = []
+    for hist, final in [([m2], m1), ([m1], m2), ([m1, m2], m1)]:
+        out.append({"graph": final, "history": list(hist), "specs": None if specs is None else [dict(x) for x in specs],
+                    "req_h": req_h, "scheme": "direct", "hmode": "none", "kind": "colliding-symbols"})
+    return out
 
 
 def gen_steps_case(rng):
@@ -112,7 +145,7 @@ def corpus():
 
 
 def _corpus():
-    for c in c05.corpus():
+    for c in c05._corpus():
         if c["kind"] in ("corpus-D9", "corpus-D7", "corpus-D16", "corpus-typeerror"):
             c["history"] = []
             yield c
